@@ -19,6 +19,8 @@ pub fn subst_rule() {
     assert!(same::<DeserType<'static, GT<Vec<u32>>>, GT<&'static [u32]>>(), "[C05/subst.param.enum.tuple] a parameter that is the type of a tuple-variant field is substituted");
     assert!(same::<DeserType<'static, GS<Vec<u32>>>, GS<&'static [u32]>>(), "[C05/subst.param.enum.struct] a parameter that is the type of a struct-variant field is substituted");
     assert!(same::<DeserType<'static, GTS<Vec<u32>, u16>>, GTS<&'static [u32], u16>>(), "[C05/subst.param.tuple] a parameter that is the type of a tuple-struct field is substituted (other fields mentioning it are fully copied)");
+    assert!(same::<DeserType<'static, GB<Vec<u32>>>, GB<&'static [u32]>>(), "[C05/subst.param.bounded] a bounded parameter that is the type of an enum field is substituted");
+    assert!(same::<DeserType<'static, GBS<Vec<u32>>>, GBS<&'static [u32]>>(), "[C05/subst.param.bounded] a bounded parameter that is the type of a struct field is substituted");
     // a parameter that is merely mentioned keeps its type (field fully deserialized)
     assert!(same::<DeserType<'static, GM<u16>>, GM<u16>>(), "[C05/subst.mention] a field whose type merely mentions a parameter keeps its type");
     // ... also when the definition comes out of a macro (the field type is a `ty` fragment)
